@@ -319,7 +319,7 @@ def validate_query(metrics: list[str], dimensions: list[str], graph: "SemanticGr
 
     # Check that all model pairs can be joined
     # Only check models that exist in the graph (errors for missing models already reported above)
-    valid_model_names = [m for m in model_names if m in graph.models]
+    valid_model_names = sorted(m for m in model_names if m in graph.models)
     model_list = list(valid_model_names)
     for i, model_a in enumerate(model_list):
         for model_b in model_list[i + 1 :]:
